@@ -153,10 +153,11 @@ func (w *WorkerGrp) signalExit() {
 // localize hash to worker
 func (w *WorkerGrp) locHash(k Hashed2Int) int {
 	var hashNum = k.HashedInt()
+	// reduce first: negating the minimum integer overflows back to itself
+	hashNum %= w.muxSize
 	if hashNum < 0 {
 		hashNum = -hashNum
 	}
-	hashNum %= w.muxSize
 	return hashNum
 }
 
